@@ -38,7 +38,7 @@ def discover(fnmap):
         if fn is None:
             continue
         kinds = ""
-        if fn.cls_type is not None:
+        if fn.cls_type is not None and not getattr(fn, "static", False):
             kinds += {"batch": "B", "bool": "M", "cbatch": "C"}[fn.cls_type.kind]
         bad = False
         for p in fn.ptypes:
